@@ -7,7 +7,7 @@ import coqemit as E
 
 ID = "C19"
 PROPS = "Props/C19.v"
-IMPORTS = "From PV Require Import Lib.Common Model.C19_Pareto Gen.C19_Kernel Proofs.C19_Kernel."
+IMPORTS = "From PV Require Import Lib.Common Model.C19_Pareto Model.C19_Tol Gen.C19_Kernel Proofs.C19_Kernel."
 SHARD = 80
 LEVEL_TEXT = ("Coq theorems over an exact-rational executable model: the pivot filter of is_pareto_efficient (with its index "
               "bookkeeping; termination within npt iterations) marks only non-dominated points and every unmarked point is equalled or "
@@ -21,7 +21,10 @@ LEVEL_TEXT = ("Coq theorems over an exact-rational executable model: the pivot f
               "to be the core function with the documented roles of their two vector arguments (objectives signed by obj_wt, distance "
               "to the line spanned by vec_wt) for every sign vector and every non-negative non-zero preference vector (after commit "
               "9b993ed9, which repaired finding C19-trans-roles-swapped; the former code is kept as old_trans_sel and refuted as a "
-              "regression witness); the distances are invariant under a change of unit of any objective (column times c > 0). The "
+              "regression witness); the distances are invariant under a change of unit of any objective (column times c > 0); the "
+              "distance of a point is exactly 0 iff its scaled point is a non-negative multiple of the preference vector (a point ON "
+              "the line: knee point of a symmetric front, point collinear with a preference vector that has zero entries), for all "
+              "three functions and for the bodies assembled from the generated kernels. The "
               "kernel expressions of the source (48: weighting, strict pivot comparison, loop guard, pivot recount of the filter; the "
               "body of dominates; per copy of the transformation the signing, shift, range, EXACT zero-range guard, fills, reciprocal, "
               "scaling, projection coefficient, projection and residual; the three assertions of the core copy) are regenerated "
@@ -32,7 +35,8 @@ LEVEL_TEXT = ("Coq theorems over an exact-rational executable model: the pivot f
               "Coq against the implementation's outputs on generated inputs")
 LEVEL_NOTE = ("trusted: Coq kernel + vm_compute; numpy float comparisons/products/differences are exact on the dyadic input grid; the "
               "1/range scaling, the dot products and numpy.linalg.norm are compared in regime T (squared distance within 2^-30(1+|y|) of "
-              "the exact rational); float overflow, NaN inputs, ragged/mis-shaped inputs are outside the model; the theorems are about "
+              "the exact rational; for the non-dyadic preference vectors / on-line fronts in addition |distance - sqrt(exact)| <= 2^-40, "
+              "Model/C19_Tol.v, so that a result of 7e-9 or NaN where the model gives exactly 0 is a disagreement); float overflow, NaN inputs, ragged/mis-shaped inputs are outside the model; the theorems are about "
               "the Gallina model, the tie to the code is differential on generated inputs plus the regenerated kernel expressions "
               "(harness/translate/c19_kernel.py + pyexpr.py are trusted to translate the located expressions faithfully; statement "
               "order, array plumbing such as fmat[ndpt_mask], numpy.linalg.norm(.., axis=1) and the reductions are matched "
@@ -52,12 +56,19 @@ RULE = ("case = (function, arguments): pareto (fmat, wt, a permutation, a positi
         "units 2^-40..2^20 must give the same distances; results must not share memory with inputs and a repeated call must not "
         "depend on the overwritten first result; point sets of 141 and 271 points (indices beyond int8/uint8); every public "
         "definition of the five anchored modules is classified COVERED (with its parameter list) or SKIPPED (reason), fail closed. "
+        "Style online (tolerance regime on the distance itself, exact-regime cases unchanged): fronts built as lo_k + range_k * (dyadic "
+        "scaled coordinate) whose scaled points include exact multiples t*g of the direction g of the preference vector w*g "
+        "(g equal entries = knee points of symmetric fronts, g with zero entries, other dyadic directions; t = 0 .. the corner), "
+        "near misses (one coordinate off by 2^-18..2^-40), arbitrary points; magnitudes w in 0.3, 0.6, 0.7, 1/3, 0.1, 0.9, 2/3, "
+        "1.7, 0.2, 7.3, 1e-3, 0.35, 2.6 and unrelated non-dyadic entries; ranges 20, 3, 12.5, 2^-20 .. and ranges with more "
+        "significant bits than single precision holds; all three functions, translations, units, layouts, sessions as above. "
         "non-trivial = at least two points that are not all "
         "equal (dom: the three solutions are not all identical); distinct by SHA-256 of the case")
 TRUSTED = ["float products/differences/comparisons of dyadic inputs (k/64, |x| <= 8, weights m/4, units 2^-40..2^20; the generator verifies "
            "with exact rationals that every product, translation and in-column difference is an exact float) are exact",
            "harness/translate/c19_kernel.py + pyexpr.py translate the located source expressions faithfully (fail closed otherwise)",
-           "numpy.linalg.norm, 1.0/range and the dot products are compared in tolerance regime T on the squared distance"]
+           "numpy.linalg.norm, 1.0/range and the dot products are compared in tolerance regime T on the squared distance "
+           "(style online: also on the distance, 2^-40 absolute; predicate: 1e-12 (1+|p|), on-line points < 1e-12 (1+|p|))"]
 ASSUMPTIONS = ["rectangular fmat/mat with len(wt) = nobj >= 1, finite non-NaN entries, no float overflow",
                "distance transforms: sign entries non-zero and preference vector non-negative non-zero for the predicate "
                "(other inputs are still compared with the model: AssertionError / NaN)"]
@@ -206,6 +217,101 @@ def _case_dist(rng, fn, npt, nobj, style, domain=True):
 
 FNS = ["core", "prob", "transfn"]
 
+# ---- fronts with points ON the preference line, preference magnitudes that are NOT dyadic (tolerance regime on the distance itself)
+NONDY = [0.3, 0.6, 0.7, 1.0 / 3.0, 0.1, 0.9, 2.0 / 3.0, 1.7, 0.2, 7.3, 1e-3, 0.35, 2.6, 0.7, 0.3]
+GDIR = [0.0, 0.0, 1.0, 1.0, 1.0, 2.0, 0.5, 3.0, 0.25, 4.0, 1.5]
+RANGES = [1.0, 2.0, 4.0, 0.5, 20.0, 10.0, 3.0, 5.0, 0.75, 12.5, 100.0, 2.0 ** -20, 3 * 2.0 ** -30, 2.0 ** 13, 20.0, 6.0,
+          # ranges with more significant bits than a float32 holds (a range taken in single precision is off by ~1e-8)
+          1.0 + 3 * 2.0 ** -30, 20.0 + 2.0 ** -28, 5.0 - 2.0 ** -33, 1.0 + 3 * 2.0 ** -30, 12.5 + 2.0 ** -27]
+RANGES_SIMPLE = [1.0, 2.0, 4.0, 20.0, 10.0, 3.0, 5.0, 100.0, 6.0, 2.0 ** 13]
+
+def _on_line_direction(rng, nobj, w):
+    """a dyadic non-negative direction g (not zero) such that every w*g_k is an exact float: the preference vector w*g is then
+    EXACTLY proportional to g although its entries are not dyadic"""
+    for _ in range(50):
+        r = rng.random()
+        if r < 0.35: g = [1.0] * nobj                                            # equal preference: knee points of symmetric fronts
+        elif r < 0.55 and nobj >= 2:                                             # objectives of no interest (zero entries)
+            g = [1.0] * nobj
+            for k in rng.sample(range(nobj), rng.randint(1, nobj - 1)): g[k] = 0.0
+        else: g = [rng.choice(GDIR) for _ in range(nobj)]
+        if any(g) and all(Fraction(w * x) == Fraction(w) * Fraction(x) for x in g): return g
+    return [1.0] * nobj
+
+def _case_online(rng, fn, nobj, w=None, generic=False):
+    """a front whose min-max-scaled points include exact multiples t*g of the direction of the preference vector w*g (distance
+    exactly 0 for every magnitude w), near misses (one coordinate off by 2^-q), the corners, arbitrary points; every column of
+    the front is lo_k + range_k * (scaled coordinate), signed, so that the exact scaled coordinates are the dyadic numbers chosen
+    here while 1/range_k is in general not a float (ranges 20, 3, 12.5 ...)"""
+    F = Fraction
+    w = rng.choice(NONDY) if w is None else w
+    g = _on_line_direction(rng, nobj, w)
+    pref = [w * x for x in g]
+    if generic:                                  # unrelated non-dyadic entries: nothing but the origin is on the line
+        pref = [rng.choice(NONDY + [0.0, 0.0]) for _ in range(nobj)]
+        if not any(pref): pref[rng.randrange(nobj)] = rng.choice(NONDY)
+    gmax = max(g); P = 1.0
+    while P < gmax: P *= 2.0
+    const = [g[k] == 0.0 and rng.random() < 0.25 for k in range(nobj)]         # a constant objective of no interest
+    rows = []
+    for _ in range(rng.randint(1, 3)):           # points on the line: t * g, entries in [0,1]
+        t = F(rng.choice([0.0, 0.25, 0.5, 0.75, 1.0, 1.0, 0.125, 0.625])) / F(P)
+        rows.append([t * F(x) for x in g])
+    for _ in range(rng.randint(0, 3 if nobj <= 2 else 1)):          # arbitrary points of the unit cube
+        rows.append([F(rng.randint(0, 16), 16) for _ in range(nobj)])
+    if rng.random() < 0.4 and nobj <= 3:         # a near miss: on the line but for 2^-q in one coordinate
+        t = F(rng.choice([0.25, 0.5, 0.75])) / F(P); r = [t * F(x) for x in g]; k = rng.randrange(nobj)
+        r[k] = r[k] + rng.choice([-1, 1]) * F(1, 2 ** rng.randint(18, 40))
+        if 0 <= r[k] <= 1: rows.append(r)
+    for r in rows:
+        for k in range(nobj):
+            if const[k]: r[k] = F(0)
+    for k in range(nobj):                        # every non-constant objective attains 0 and 1 (so the scaled coordinates are the ones above)
+        if const[k]: continue
+        if not any(r[k] == 1 for r in rows): rows.append([F(1) if j == k else F(0) for j in range(nobj)])
+        if not any(r[k] == 0 for r in rows): rows.append([F(0) if j == k or const[j] else F(rng.choice([0.5, 1.0])) for j in range(nobj)])
+    rng.shuffle(rows)
+    sign = [rng.choice([1.0, -1.0]) for _ in range(nobj)]
+    for attempt in range(30):
+        if attempt < 25:
+            # (the exact rationals of the model are not reduced: long denominators in many columns make the evaluation in Coq slow,
+            #  so offsets of 2^-30 ranges are used on fronts of at most 2 objectives and very small ranges on at most 3)
+            rg = [rng.choice(RANGES if nobj <= 3 else RANGES_SIMPLE) for _ in range(nobj)]
+            lo = [F(rng.randint(-64, 64), 64 if nobj <= 3 else 4) * F(rg[k]) * rng.choice([0, 1, 1, 4])
+                  + (F(rng.randint(1, 7), 2 ** 30) * F(rg[k]) if nobj <= 2 and rng.random() < 0.4 else 0) for k in range(nobj)]
+            if rng.random() < 0.3: lo = [F(rng.choice([10, 1, 5, -30, 100])) for _ in range(nobj)]
+        else:
+            rg = [1.0] * nobj; lo = [F(0)] * nobj
+        X = [[F(sign[k]) * (lo[k] + F(rg[k]) * r[k]) for k in range(nobj)] for r in rows]
+        mat = [[float(x) for x in r] for r in X]
+        if any(F(a) != b for ra, rb in zip(mat, X) for a, b in zip(ra, rb)): continue
+        shift = [float(F(rng.randint(-256, 256), 4) * F(rg[k])) if rng.random() < 0.8 else 0.0 for k in range(nobj)]
+        if rng.random() < 0.3: shift = [rng.choice([64.0, -128.0, 1.0, 0.0]) for _ in range(nobj)]
+        if not _exact_rows(mat, sign, shift): shift = [0.0] * nobj
+        if _exact_rows(mat, sign, shift): break
+    else:
+        raise ValueError("no exact front")
+    reunit = [rng.choice([-40, -30, -13, 5, 20]) for _ in range(nobj)]
+    if rng.random() < 0.6 or not _exact_rows([[x * 2.0 ** e for x, e in zip(r, reunit)] for r in mat], sign): reunit = None
+    return {"kind": "dist", "fn": fn, "style": "online", "tol": True, "nobj": nobj, "mat": mat, "sign": sign, "pref": pref, "shift": shift,
+            "units": [0] * nobj, "layout": rng.choice(["c", "c", "f", "strided", "readonly"]), "extra_kw": rng.random() < 0.1,
+            "route": "protocol" if fn == "prob" and rng.random() < 0.3 else "direct", "session": rng.random() < 0.5, "reunit": reunit}
+
+def _online_fixed():
+    """the knee point of a symmetric front under an equal preference of several magnitudes, and a front with a point collinear
+    with a preference vector that ignores one objective"""
+    out = []
+    for fn in FNS:
+        for w in (0.3, 0.6, 0.7, 1.0 / 3.0, 0.1, 1.0):
+            out.append({"kind": "dist", "fn": fn, "style": "online", "tol": True, "nobj": 2, "mat": [[10.0, 30.0], [20.0, 20.0], [30.0, 10.0]],
+                        "sign": [-1.0, -1.0], "pref": [w, w], "shift": [64.0, -128.0]})
+            out.append({"kind": "dist", "fn": fn, "style": "online", "tol": True, "nobj": 2, "mat": [[1.0, 7.0], [2.0, 4.0], [3.0, 3.0], [4.0, 1.0], [2.5, 4.0]],
+                        "sign": [1.0, 1.0], "pref": [w, 2 * w], "shift": [-3.0, 0.5]})
+        for w in (0.7, 0.3, 1.0 / 3.0):
+            out.append({"kind": "dist", "fn": fn, "style": "online", "tol": True, "nobj": 3, "mat": [[5.0, 1.0, 1.0], [1.0, 5.0, 3.0], [3.0, 3.0, 5.0], [1.0, 3.0, 3.0]],
+                        "sign": [-1.0, 1.0, 1.0], "pref": [0.0, w, w], "shift": [1.0, -2.0, 8.0]})
+    return out
+
 def gen_cases(rng, tier):
     cases = []
     quick = tier == "quick"
@@ -249,7 +355,21 @@ def gen_cases(rng, tier):
         cases.append(_case_dist(rng, FNS[i % 3], npt, nobj, rng.choice(STYLES)))
     for i in range(nX):               # outside the quantified domain: zero / negative preference, zero sign vector
         cases.append(_case_dist(rng, FNS[i % 3], rng.randint(1, 5), rng.choice([1, 2, 3]), rng.choice(STYLES), domain=False))
-    return cases
+    # points ON the preference line, non-dyadic preference magnitudes (regime T on the distance itself); drawn from a PRNG of their own
+    # so that the cases above are the same as before
+    import random as _random
+    r2 = _random.Random(rng.getrandbits(64))
+    online = _online_fixed()
+    for i in range(102 if quick else 600):       # (4 objectives: one front per function — the unreduced rationals get long)
+        nobj = 4 if i < (3 if quick else 30) else r2.choice([1, 2, 2, 2, 2, 3, 3])
+        online.append(_case_online(r2, FNS[i % 3], nobj, w=NONDY[(i // 3) % len(NONDY)] if i % 2 else None, generic=(i % 7 == 6)))
+    # spread evenly over the list (hence over the Coq shards: these cases are the expensive ones); the other cases keep their order
+    step = max(1, len(cases) // len(online))
+    out = []
+    for j, c in enumerate(cases):
+        out.append(c)
+        if j % step == step - 1 and online: out.append(online.pop(0))
+    return out + online
 
 # ------------------------------------------------------------------ implementation driver
 def _session(case):
@@ -418,10 +538,12 @@ def emit_case(case, out):
         # the translated front through the body ASSEMBLED FROM THE GENERATED KERNELS of that copy (Gen/C19_Kernel.v)
         knm = {"core": "kern_core", "prob": "kern_body K_prob", "transfn": "kern_body K_fn"}[case["fn"]]
         extra = ""
+        # non-dyadic preference vectors / points on the line: |d - sqrt(model)| <= 2^-40 (Model/C19_Tol.v) on top of the comparison of squares
+        ag = "tres_agree_t" if case.get("tol") else "tres_agree"
         if out.get("d_unit") is not None:       # the front in other units, against the MODEL's result for the original front (C19_unit_invariant)
-            extra = "\n   && tres_agree (%s %s %s %s) %s" % (fnm, M, sign, pref, _obs(out["d_unit"]))
-        return "(tres_agree (%s %s %s %s) %s\n   && tres_agree (%s %s %s %s) %s%s)" % (
-            fnm, M, sign, pref, _obs(out["d"]), knm, Ms, sign, pref, _obs(out["d_shift"]), extra)
+            extra = "\n   && %s (%s %s %s %s) %s" % (ag, fnm, M, sign, pref, _obs(out["d_unit"]))
+        return "(%s (%s %s %s %s) %s\n   && %s (%s %s %s %s) %s%s)" % (
+            ag, fnm, M, sign, pref, _obs(out["d"]), ag, knm, Ms, sign, pref, _obs(out["d_shift"]), extra)
     return "false"
 
 # ------------------------------------------------------------------ independent predicate
@@ -498,6 +620,29 @@ def _geo2(mat, mul, line):
     LL = sum(l * l for l in line)
     return [sum(x * x for x in p) - sum(x * l for x, l in zip(p, line)) ** 2 / LL for p in N]
 
+def _scaled(mat, mul):
+    """the min-max-scaled points of (mat * mul), exact: (x - min)/(max - min) per objective, 0 for a constant objective"""
+    n = len(mat); m = len(mul)
+    V = [[mat[i][k] * mul[k] for k in range(m)] for i in range(n)]
+    N = [[Fraction(0)] * m for _ in range(n)]
+    for k in range(m):
+        col = [V[i][k] for i in range(n)]
+        lo, hi = min(col), max(col)
+        for i in range(n):
+            if hi != lo: N[i][k] = (col[i] - lo) / (hi - lo)
+    return N
+
+def _on_line(p, line):
+    """p is a multiple of the (non-negative, non-zero) vector `line`: all 2x2 minors vanish"""
+    m = len(p)
+    return all(p[a] * line[b] == p[b] * line[a] for a in range(m) for b in range(a + 1, m))
+
+TIGHT = Fraction(1, 10 ** 12)
+def _tight(d, want, scale):
+    """|d - sqrt(want)| <= 1e-12 * scale, decided exactly"""
+    e = TIGHT * scale; d = Fraction(d)
+    return d >= 0 and want <= (d + e) ** 2 and (d <= e or (d - e) ** 2 <= want)
+
 def _in_domain(case):
     return (len(case["mat"]) >= 1 and all(x != 0 for x in case["sign"]) and all(x >= 0 for x in case["pref"])
             and any(x > 0 for x in case["pref"]))
@@ -521,6 +666,20 @@ def _pred_dist(case, out):
     want = _geo2(mat, sign, pref)
     # (all three functions alike: the selection copies had the two vectors exchanged before commit 9b993ed9 — finding
     #  C19-trans-roles-swapped, repaired; nothing is excused here any more)
+    # a point whose scaled coordinates are a multiple of the preference vector lies ON the line: its distance is 0 up to rounding of
+    # the scaled coordinates (1e-12 * (1 + |p|) leaves four orders of magnitude above that; a difference of squares leaves 7e-9)
+    N = _scaled(mat, sign)
+    scale = [1 + Fraction(math.sqrt(float(sum(x * x for x in p)))) for p in N]
+    for name, dd in (("", d), (" after translation by %s" % case["shift"], ds)):
+        on = [i for i in range(n) if _on_line(N[i], pref) and not dd[i] < 1e-12 * float(scale[i])]
+        if on:
+            i = on[0]
+            bad.append("point %d (scaled %s) is a multiple of the preference vector %s, i.e. ON the line, but its distance%s is %r (must be < 1e-12)" % (
+                i, [str(x) for x in N[i]], case["pref"], name, dd[i]))
+        off = [i for i in range(n) if not _tight(dd[i], want[i], scale[i])]
+        if off and not on:
+            i = off[0]
+            bad.append("distance of point %d%s is %r, the geometric definition gives %r: off by more than 1e-12" % (i, name, dd[i], math.sqrt(want[i])))
     miss = [i for i in range(n) if not _close2(d[i], want[i])]
     if miss:
         i = miss[0]
@@ -532,7 +691,7 @@ def _pred_dist(case, out):
                 i, case["shift"], " (same array updated in place, points reversed)" if _session(case) else "", ds[i], d[i])); break
     if out.get("d_unit") is not None:
         du = [_fh(h) for h in out["d_unit"]]
-        if len(du) != n or any(not math.isfinite(x) for x in du) or any(not _close2(du[i], want[i]) for i in range(n)):
+        if len(du) != n or any(not math.isfinite(x) for x in du) or any(not _close2(du[i], want[i]) or not _tight(du[i], want[i], scale[i]) for i in range(n)):
             bad.append("distances change when the objectives are expressed in units 2^%s: %r vs %r" % (case["reunit"], du[:4], d[:4]))
     if not out["unchanged"]: bad.append("input arrays were modified")
     if out.get("alias"): bad.append("the result shares memory with an input")
@@ -578,6 +737,7 @@ def describe(case, out):
         d["weights"] = "zero-in" if any(x == 0 for x in case["wt"]) else ("mixed-sign" if len(set(x > 0 for x in case["wt"])) > 1 else "same-sign")
     if k == "dist":
         d["domain"] = _in_domain(case)
+        d["regime"] = "T on the distance (non-dyadic preference)" if case.get("tol") else "E/T on the square"
         d["constant_objective"] = len(case["mat"]) > 0 and any(len(set(r[j] for r in case["mat"])) == 1 for j in range(case["nobj"]))
     if k == "dom":
         d["feasible"] = "".join("F" if cv <= 0 else "I" for _, cv in case["sols"])
